@@ -101,9 +101,11 @@ def r1(ctx):
     for ff in repo.funcs():
         for c, q in repo.calls_in(ff):
             if q == "gunicorn.sock.close_sockets":
-                ctx.check("C10.R1", ff.qualname == ARB + ".stop", key(ff, "close_sockets-caller"), site(ff, c),
+                un = c.args[1] if len(c.args) > 1 else next((k.value for k in c.keywords if k.arg == "unlink"), None)
+                keeps_path = un is not None and const(un, NO) is False
+                ctx.check("C10.R1", ff.qualname == ARB + ".stop" or keeps_path, key(ff, "close_sockets-caller"), site(ff, c),
                           "%s calls sock.close_sockets(): on a unix bind it removes the socket path while the master keeps listening on it -- every later connect() fails although the bind address is unchanged" % ff.short,
-                          "close_sockets only from Arbiter.stop")
+                          "close_sockets only from Arbiter.stop (elsewhere: unlink=False)")
     # who else touches listeners in the arbiter
     allowed = {ARB + ".start", ARB + ".stop", ARB + ".reload", ARB + ".__init__"}
     for ff in repo.cls(ARB).methods.values():
